@@ -700,11 +700,16 @@ def disown_fn(
 
     messages = []
     # if args.job_ids is empty, use the active task
-    for tid in job_ids or [tasks[0]]:
+    job_ids = list(dict.fromkeys(job_ids)) or [tasks[0]]
+    # validate every id before removing anything, so that an invalid id
+    # leaves the job table unchanged
+    for tid in job_ids:
         try:
-            current_task = get_task(tid)
+            get_task(tid)
         except KeyError:
             return "", f"'{tid}' is not a valid job ID"
+    for tid in job_ids:
+        current_task = get_task(tid)
 
         auto_cont = XSH.env.get("AUTO_CONTINUE", False)
         if auto_cont or force_auto_continue:
